@@ -33,7 +33,7 @@ STUB = ["wall clock", "uuid source", "file system under FileAdapter", "SdSimulat
 ASSUMPTIONS = ["automatic OPTIONS answers are Flask's own and excluded", "credential shapes that contain the token as a whole word are not sent (no verdict)",
                "states are sampled, the intruder product per state is complete"]
 FAULT_KINDS = ["unauthorised_request"]
-PROBES = ["state_live_session", "state_locked_session", "state_expired_externalised", "state_no_instances",
+PROBES = ["intruder_while_authorised_request_in_flight", "authorised_request_failed_before_burst", "state_live_session", "state_locked_session", "state_expired_externalised", "state_no_instances",
           "authorised_twin_request_changes_state", "malformed_header_500"]
 EXHAUSTIVE = {"quick": False, "thorough": False}
 
@@ -97,9 +97,16 @@ def generate(spec):
         ops.append({"op": "expire", "name": "expired"})
     if rng.random() < 0.5:
         ops.append({"op": "run", "settings": {"smA": {"alt": {"constants": {"constant": 4.0}}}}})
+    for _ in range(rng.choice([0, 1, 1, 2])):
+        # authorised requests that FAIL inside their handler (unknown scenario, empty body, unknown instance ...)
+        ops.append({"op": "auth_fail", "which": rng.choice(["equations_unknown", "agents_empty", "run_unknown_manager", "begin_unknown_instance",
+                                                            "equations_no_json"])})
+    if rng.random() < 0.5:
+        ops.append({"op": "concurrent_intruders", "name": "live", "n": rng.choice([2, 3]),
+                    "sched": {"kind": "random", "seed": rng.randrange(2**32), "p": rng.choice([0.05, 0.2, 0.5])}})
     rng.shuffle(ops)
     # keep per-instance order (start < begin < step/hold/expire)
-    order = {"start": 0, "begin": 1, "step": 2, "hold_stream": 3, "expire": 4, "run": 2}
+    order = {"start": 0, "begin": 1, "step": 2, "hold_stream": 3, "expire": 4, "run": 2, "auth_fail": 2, "concurrent_intruders": 2}
     by = {}
     for o in ops:
         by.setdefault(o.get("name", "_"), []).append(o)
@@ -156,7 +163,72 @@ def _auth_op(w, st, o, held):
         return r
     if op == "run":
         return w.post("/run", {"scenario_managers": ["smA"], "scenarios": ["alt"], "equations": ["stock", "constant"], "settings": o["settings"]})
+    if op == "auth_fail":
+        wh = o["which"]
+        if wh == "equations_unknown":
+            return w.post("/equations", {"scenarioManager": "nope", "scenario": "nothing"})
+        if wh == "agents_empty":
+            return w.post("/agents", {})
+        if wh == "run_unknown_manager":
+            return w.post("/run", {"scenario_managers": ["nope"], "scenarios": ["x"], "equations": ["stock"], "settings": {"nope": {"x": {"constants": {"c": 1}}}}})
+        if wh == "begin_unknown_instance":
+            return w.post("/feedfacefeedface/begin-session", {"scenario_managers": ["smA"], "scenarios": ["base"], "equations": ["stock"]})
+        return w.request("POST", "/equations", raw=b"not json", content_type="text/plain")
     raise ValueError(op)
+
+
+CONC_TRACE = ("server/bptkServer.py", "BPTK_Py/bptk.py")
+
+
+def concurrent_phase(w, st, o, res, log, with_intruders):
+    """an authorised multi-step request is IN FLIGHT (inside its handler) while unauthenticated requests arrive on
+    another thread; the baton scheduler pre-empts at the source lines of bptkServer.py / bptk.py"""
+    from sim.threads import Scheduler, make_policy, run_tasks, Deadlock
+    iid = st["ids"].get(o["name"], "none")
+    out = {}
+
+    def authorised():
+        out["auth"] = w.post("/%s/run-steps" % iid, {"settings": {}, "numberSteps": o["n"]}, tag="auth-conc")
+
+    def intruder():
+        T = w.token
+        reqs = [("POST", "/start-instance", {"timeout": {"minutes": 5}}, None),
+                ("POST", "/%s/run-step" % iid, {"settings": SET9}, "Bearer wrong"),
+                ("POST", "/%s/stop-instance" % iid, None, None),
+                ("GET", "/scenarios", None, "Bearer " + T[:-1]),
+                ("POST", "/%s/begin-session" % iid, BODIES["begin-session"], ""),
+                ("POST", "/%s/keep-alive" % iid, None, "Basic " + T[::-1])]
+        got = []
+        for (m, path, body, hdr) in reqs:
+            r = w.request(m, path, body=body, auth=False, headers={} if hdr is None else {"Authorization": hdr})
+            got.append((m, path, hdr, r.status, str(r.text)[:80]))
+            res.fault("unauthorised_request")
+        out["intruder"] = got
+
+    tasks = [authorised] + ([intruder] if with_intruders else [])
+    sched = Scheduler(make_policy(o["sched"]), CONC_TRACE, log=None)
+    n_before = len(w.instance_table())
+    with sched:
+        try:
+            rr = run_tasks(sched, tasks)
+        except Deadlock:
+            res.violate("C15.deadlock", {})
+            rr = []
+    for x in rr:
+        if x and x[0] == "exc":
+            raise x[1]
+    res.points += sched.points
+    if with_intruders:
+        res.probe("intruder_while_authorised_request_in_flight")
+        for (m, path, hdr, status, text) in out.get("intruder", []):
+            if status < 400:
+                res.violate("C15.served-without-token", {"rule": path.replace(iid, "<instance_uuid>"), "method": m, "shape": "absent" if hdr is None else hdr[:12],
+                                                         "id": "live", "body": "authorised_body", "status": status, "response": text,
+                                                         "while": "an authorised run-steps request was in flight"})
+        if len(w.instance_table()) != n_before:
+            res.violate("C15.state-changed-by-refused-request", {"changed": ["instance_table"], "while": "an authorised request was in flight",
+                                                                 "instances_before": n_before, "instances_after": len(w.instance_table())})
+    return out.get("auth")
 
 
 def _targets(app):
@@ -251,7 +323,7 @@ def _history(case, with_bursts, log, res):
     cfg = case["config"]
     responses = []
     held = []
-    with ServerWorld({"model": cfg["model"], "adapter": cfg.get("adapter"), "token": cfg["token"], "threads": "serial"}, log, res) as w:
+    with ServerWorld({"model": cfg["model"], "adapter": cfg.get("adapter"), "token": cfg["token"], "threads": "auto"}, log, res) as w:
         w.boot()
         st = {"ids": {}}
         try:
@@ -261,18 +333,35 @@ def _history(case, with_bursts, log, res):
                     log.add("burst", n, sent)
                 if n < len(case["ops"]):
                     o = case["ops"][n]
-                    r = _auth_op(w, st, o, held)
+                    if o["op"] == "concurrent_intruders":
+                        if "live" not in st["ids"]:
+                            continue
+                        r = concurrent_phase(w, st, o, res, log, with_bursts)
+                        if r is None:
+                            continue
+                    else:
+                        r = _auth_op(w, st, o, held)
                     text = r.text
                     for nm, iid in st["ids"].items():
                         text = text.replace(iid, nm)
+                    try:
+                        text = json.dumps(json.loads(text), sort_keys=True)     # key order is not a difference
+                    except Exception:
+                        pass
                     responses.append([n, o["op"], r.status, text])
+                    if o["op"] == "auth_fail" and with_bursts:
+                        res.probe("authorised_request_failed_before_burst")
                     log.add("auth", n, o["op"], r.status)
             # final observable state through the authorised API
             for nm, iid in sorted(st["ids"].items()):
                 if nm == "locked":
                     continue
                 r = w.get("/%s/session-results" % iid)
-                responses.append(["final", nm, r.status, r.text])
+                try:
+                    ftext = json.dumps(json.loads(r.text), sort_keys=True)
+                except Exception:
+                    ftext = r.text
+                responses.append(["final", nm, r.status, ftext])
             # the authorised twin of a refused request does change the state (the oracle can see a change)
             if with_bursts and "live" in st["ids"]:
                 b = w.fingerprint()
